@@ -218,10 +218,8 @@ func ruleR12_3(c *Check) {
 	for _, s := range ni.Sites(top) {
 		underL0 := false
 		for _, g := range w.Guards(ni, s) {
-			if b, ok := g.Cond.(*ast.BinaryExpr); ok && b.Op == token.EQL && g.Val {
-				if v, ok := w.constInt(b.Y); ok && v == 0 {
-					underL0 = true
-				}
+			if eqOf(g, true, func(e ast.Expr) bool { _, isC := w.constInt(e); return !isC }, w.isConst(0)) {
+				underL0 = true
 			}
 		}
 		if !underL0 {
@@ -866,10 +864,11 @@ func ruleR14_4(c *Check) {
 	for _, s := range ss {
 		l0 := false
 		for _, g := range w.Guards(it, s) {
-			if b, ok := g.Cond.(*ast.BinaryExpr); ok && b.Op == token.EQL {
-				if v, ok := w.constInt(b.Y); ok && v == 0 {
-					l0 = g.Val
-				}
+			notConst := func(e ast.Expr) bool { _, isC := w.constInt(e); return !isC }
+			if eqOf(g, true, notConst, w.isConst(0)) {
+				l0 = true
+			} else if eqOf(g, false, notConst, w.isConst(0)) {
+				l0 = false
 			}
 		}
 		if l0 {
